@@ -69,7 +69,8 @@ class St:
             out.append('the relative plate transform was computed from (%s, %s) but the stored plate poses are (%s, %s)'
                        % (self.rB, self.rT, self.sB, self.sT))
         for d in sorted(self.dirty):
-            out.append(d)
+            if not d.startswith('#'):
+                out.append(d)
         return out
 
     def __repr__(self):
@@ -78,6 +79,9 @@ class St:
 
 class Recursion(Exception):
     pass
+
+
+NV = '#unvalidated'      # marker in St.dirty: the platform was moved since its constraints were last evaluated
 
 
 class SPDomain(EventDomain):
@@ -100,9 +104,13 @@ class SPDomain(EventDomain):
             if e.id in self.ptok:
                 return self.ptok[e.id]
             return 'v:%s' % e.id
+        if isinstance(e, ast.Call) and isinstance(e.func, ast.Attribute) and e.func.attr == 'globalToLocal' and len(e.args) == 2 and not e.keywords:
+            return ('rel', self.tok(e.args[0], st), self.tok(e.args[1], st))       # a relative transform remembers the pair it was taken between
         if isinstance(e, ast.Call) and isinstance(e.func, ast.Attribute):
             f = e.func
             if isinstance(f.value, ast.Name) and f.value.id == 'self':
+                if f.attr == 'validate':
+                    return 'valid@%d' % e.lineno
                 if f.attr == 'getTopT' or f.attr == 'getEEPos':
                     return st.sT
                 if f.attr in ('getBottomT', 'getBasePos'):
@@ -136,13 +144,13 @@ class SPDomain(EventDomain):
             return (state,)
         whole = isinstance(target, ast.Attribute)
         if f == POSE_B and whole:
-            return ((st.with_(sB=self.tok(value, st)), consts),)
+            return ((st.with_(sB=self.tok(value, st), dirty=st.dirty | {NV}), consts),)
         if f == POSE_T and whole:
-            return ((st.with_(sT=self.tok(value, st)), consts),)
+            return ((st.with_(sT=self.tok(value, st), dirty=st.dirty | {NV}), consts),)
         if f in (POSE_B, POSE_T):
             # in-place change of a stored pose
             tag = 'm%d:%s' % (stmt.lineno, f)
-            return ((st.with_(**({'sB': tag} if f == POSE_B else {'sT': tag})), consts),)
+            return ((st.with_(dirty=st.dirty | {NV}, **({'sB': tag} if f == POSE_B else {'sT': tag})), consts),)
         if f in DERIVED and self.fi.name != '_IKHelper':
             note = 'self.%s written outside _IKHelper (%s, line %d)' % (f, self.fi.name, stmt.lineno)
             return ((st.with_(dirty=st.dirty | {note}), consts),)
@@ -150,7 +158,10 @@ class SPDomain(EventDomain):
             # relative transform assigned directly: coherent iff computed from the stored poses
             rb, rt = 'r%d' % stmt.lineno, 'r%d' % stmt.lineno
             v = value
-            if isinstance(v, ast.Call) and isinstance(v.func, ast.Attribute) and v.func.attr == 'globalToLocal' and len(v.args) == 2:
+            tk = self.tok(v, st) if isinstance(v, (ast.Name, ast.Call)) else None
+            if isinstance(tk, tuple) and tk and tk[0] == 'rel':
+                rb, rt = tk[1], tk[2]                 # directly, or through a local that names the transform
+            elif isinstance(v, ast.Call) and isinstance(v.func, ast.Attribute) and v.func.attr == 'globalToLocal' and len(v.args) == 2:
                 rb, rt = self.tok(v.args[0], st), self.tok(v.args[1], st)
             elif isinstance(v, ast.Call) and src(v.func) == 'tm' and not v.args:
                 rb, rt = 'ident', 'ident'
@@ -211,13 +222,13 @@ class SPDomain(EventDomain):
                 t = st.sT if t is None else t
                 b = st.sB if b is None else b
                 dirty = frozenset(d for d in st.dirty if 'written outside _IKHelper' not in d and 'derived state not recomputed' not in d)
-                st2 = st.with_(dB=b, dT=t, rB=b, rT=t, dirty=dirty)
+                st2 = st.with_(dB=b, dT=t, rB=b, rT=t, dirty=dirty | {NV})
                 self.an.helper_calls.append((self.fi, call, b, t))
                 return [(st2, consts, (None, b, t))]
             if name == '_setPlatePos':
                 b = self.tok(bound.get('bottom_plate_pos'), st) if 'bottom_plate_pos' in bound else None
                 t = self.tok(bound.get('top_plate_pos'), st) if 'top_plate_pos' in bound else None
-                return [(st.with_(sB=st.sB if b is None else b, sT=st.sT if t is None else t), consts, None)]
+                return [(st.with_(sB=st.sB if b is None else b, sT=st.sT if t is None else t, dirty=st.dirty | {NV}), consts, None)]
             if name == '_bottomTopCheck':
                 b = self.tok(call.args[0], st) if len(call.args) > 0 else None
                 t = self.tok(call.args[1], st) if len(call.args) > 1 else None
@@ -242,10 +253,32 @@ class SPDomain(EventDomain):
                     ptok[p] = None if (d is not None and isinstance(d, ast.Constant) and d.value is None) else 'd:%s' % p
             outs = self.an.summary(callee, st, frozenset(cconst), ptok)
             res = []
+            keep_valid = NV not in st.dirty and self._rigid_reanchor(call)
             for (o, ret) in outs:
-                res.append((st.with_(sB=o[0], sT=o[1], dB=o[2], dT=o[3], rB=o[4], rT=o[5], dirty=o[6], tables=o[7]), consts, ret))
+                dirty = o[6]
+                if name == 'validate' or keep_valid:
+                    # validate() leaves a state whose constraints it has just evaluated; moving both plates by one rigid motion
+                    # (top = P, bottom = P @ inv(current relative transform)) keeps every leg, so it keeps the verdict
+                    dirty = frozenset(d for d in dirty if d != NV)
+                res.append((st.with_(sB=o[0], sT=o[1], dB=o[2], dT=o[3], rB=o[4], rT=o[5], dirty=dirty, tables=o[7]), consts, ret))
             return res
         return [(st, consts, None)]
+
+    @staticmethod
+    def _rigid_reanchor(call):
+        """IK / _IKHelper / _setPlatePos called with (X, X @ <current relative transform>[.inv()]) in either order"""
+        args = [src(a).replace(' ', '') for a in call.args] + [src(k.value).replace(' ', '') for k in call.keywords if k.arg and 'plate_pos' in k.arg]
+        cur = 'self.%s' % REL
+        for x in args:
+            for y in args:
+                if y in (x + '@' + cur + '.inv()', x + '@' + cur, 'fsr.localToGlobal(%s,%s)' % (x, cur), 'fsr.localToGlobal(%s,%s.inv())' % (x, cur)) and cur not in x:
+                    return True
+        return False
+
+    def _stale_verdict(self, node, st, toks):
+        if NV in st.dirty and toks is not None and any(isinstance(t_, str) and t_.startswith('valid@') for t_ in toks):
+            line = [int(t_[6:]) for t_ in toks if isinstance(t_, str) and t_.startswith('valid@')][0]
+            self.an.stale_verdicts.append((self.fi, node.lineno, line))
 
     def on_return(self, node, state):
         v = node.value
@@ -260,6 +293,7 @@ class SPDomain(EventDomain):
             ret = None
             if isinstance(v, ast.Tuple):
                 ret = tuple(self.tok(x, st) for x in v.elts)
+                self._stale_verdict(node, st, ret)
             outs.append((st.with_(env=frozenset(x for x in st.env if x[0] != '$ret') | {('$ret', ret)}), consts))
         return outs
 
@@ -354,6 +388,7 @@ class SPAnalysis:
         self._stack = []
         self.recursions = []     # (cycle description)
         self.helper_calls = []
+        self.stale_verdicts = []     # (method, return line, line of the validate() call whose verdict is returned after a later move)
         self.lambdas = {}
         for name, fi in self.sp.methods.items():
             d = {}
